@@ -6,6 +6,7 @@
    (C04); zstd/zlib/base64 decoding is the abstract [decode]; MD5 is the abstract [H].
    Executable definitions only. *)
 From Trzsz Require Export Base.Bytes.
+From Trzsz Require Import Gen.Consts.
 From Coq Require Import ZArith.
 
 Section Protocol.
@@ -31,14 +32,19 @@ Inductive verdict :=
 (* protocol >= 2 (recvFileDataV2): frames are collected until the empty finish frame; the
    decoded stream is written; then the MD5 line must equal the digest of the DECODED STREAM.
 
-   The size check is not atomic.  pipelineSaveData demands step = size, but only at the END of
-   the stream; pipelineSendAck - the stage that reports completion (ctx.succ) - polls savedSteps
-   once the finish flag has been read and reports as soon as it EQUALS the announced size.  When
-   the stream is longer than announced and the saved step passes through [size] (it starts at 0:
-   always so for size = 0), the acknowledger may win: recvFileDataV2 returns the digest of the
-   WHOLE stream (the hashing stage runs to the end), while the saver is stopped (ctx cancelled,
-   file closed) after a prefix of at least [size] bytes.  [early] is that schedule:
-   Some k = the acknowledger wins and k bytes reach the file; None = the saver's check decides. *)
+   [recv_v2_old] is the code as it was before the fix d144b66: the size check was not atomic.
+   pipelineSaveData demands step = size, but only at the END of the stream; pipelineSendAck - the
+   stage that reports completion (ctx.succ) - polls savedSteps once the finish flag has been read
+   and reports as soon as it EQUALS the announced size.  When the stream is longer than announced
+   and the saved step passes through [size] (it starts at 0: always so for size = 0), the
+   acknowledger could win: recvFileDataV2 returned the digest of the WHOLE stream (the hashing
+   stage runs to the end), while the saver was stopped (ctx cancelled, file closed) after a prefix
+   of at least [size] bytes.  [early] is that schedule: Some k = the acknowledger wins and k bytes
+   reach the file; None = the saver's check decides.
+
+   [recv_v2] is the code as it is: after ctx.succ, recvFileDataV2 waits for the saver (saveDone)
+   and returns the saver's error if its check failed - whether the source does so is read from
+   the source (Consts.c02_succ_waits_saver); then the schedule no longer matters. *)
 Variable early : option nat.
 
 Definition md5_verdict (w written : list byte) (rest : list line) : verdict :=
@@ -48,7 +54,7 @@ Definition md5_verdict (w written : list byte) (rest : list line) : verdict :=
   | _ => Reject
   end.
 
-Fixpoint recv_v2 (size : Z) (acc : list (list byte)) (ls : list line) : verdict :=
+Fixpoint recv_v2_sched (early : option nat) (size : Z) (acc : list (list byte)) (ls : list line) : verdict :=
   match ls with
   | [] => Waiting
   | LData [] :: rest =>
@@ -65,10 +71,14 @@ Fixpoint recv_v2 (size : Z) (acc : list (list byte)) (ls : list line) : verdict 
         | None => Reject
         end
     end
-  | LData f :: rest => recv_v2 size (acc ++ [f]) rest
-  | LKeep :: rest => recv_v2 size acc rest
+  | LData f :: rest => recv_v2_sched early size (acc ++ [f]) rest
+  | LKeep :: rest => recv_v2_sched early size acc rest
   | _ => Reject
   end.
+
+Definition recv_v2_old : Z -> list (list byte) -> list line -> verdict := recv_v2_sched early.
+Definition recv_v2 : Z -> list (list byte) -> list line -> verdict :=
+  recv_v2_sched (if Consts.c02_succ_waits_saver then None else early).
 
 (* protocol 1 (recvFileData): every DATA line is decoded on its own and appended while
    step < size; there is NO check that step = size afterwards (the loop may overshoot);
